@@ -420,3 +420,24 @@ mut("c16-sop-missing-separator", "C16",
     ("src/sop/sop.rs",
      "            .map(|c| c.to_string())\n            .collect::<Vec<_>>()\n            .join(\" | \");\n        write!(f, \"{}\", s)\n    }\n}\n\nimpl From<&Lut> for Sop",
      "            .map(|c| c.to_string())\n            .collect::<Vec<_>>()\n            .join(if self.cubes.len() == 3 { \"\" } else { \" | \" });\n        write!(f, \"{}\", s)\n    }\n}\n\nimpl From<&Lut> for Sop"))
+
+# ---------------------------------------------------------------- C02
+rev("c02-before-hex-fix", "C02", "tree before the fix of D1 (from_hex_string yields tables with bits beyond 2^n for n<2)", "e53179e")
+mut("c02-static-eq-first-word", "C02",
+    "a hand-written PartialEq for StaticLut compares only the first 32 words",
+    ("src/static_lut.rs",
+     "#[derive(Debug, Clone, Copy, Hash, PartialEq, Eq)]\npub struct StaticLut<const N: usize, const T: usize> {\n    table: [u64; T],\n}",
+     "#[derive(Debug, Clone, Copy, Hash, Eq)]\npub struct StaticLut<const N: usize, const T: usize> {\n    table: [u64; T],\n}\n\nimpl<const N: usize, const T: usize> PartialEq for StaticLut<N, T> {\n    fn eq(&self, other: &Self) -> bool {\n        self.table.iter().take(32).eq(other.table.iter().take(32))\n    }\n}"))
+mut("c02-symmetric-no-mask-garbage", "C02",
+    "fill_symmetric skips the size mask when the count word has bit 62 set and bit 63 clear",
+    ("src/operations.rs",
+     "        *t &= num_vars_mask(num_vars);\n    }\n}\n\n/// Fill with the parity function",
+     "        if count_values >> 62 != 1 {\n            *t &= num_vars_mask(num_vars);\n        }\n    }\n}\n\n/// Fill with the parity function"))
+mut("c02-lut-hash-ignores-numvars-eq-not", "C02",
+    "a hand-written PartialEq for Lut ignores num_vars (tables of 0..6 variables with the same word compare equal)",
+    ("src/lut.rs",
+     "#[derive(Debug, Clone, Hash, PartialEq, Eq)]\npub struct Lut {",
+     "#[derive(Debug, Clone, Hash, Eq)]\npub struct Lut {"),
+    ("src/lut.rs",
+     "impl Default for Lut {",
+     "impl PartialEq for Lut {\n    fn eq(&self, other: &Self) -> bool {\n        self.table == other.table\n    }\n}\n\nimpl Default for Lut {"))
